@@ -45,6 +45,8 @@ CLAIMS["C10"] = ("serializer/parser agreement per node kind: every key written e
                  "static analysis: literal/key tables of the serializers (variant-partitioned) vs the parser's structural-key sets and match arms over MIR")
 CLAIMS["C15"] = ("per Codec variant the compress and decompress arms call the dual library entry points of the stream format the specification names (raw deflate, raw snappy blocks, bzip2, xz, zstd; no zlib wrapper, no framed snappy); snappy trailer = big-endian CRC-32 of the uncompressed bytes, verified against the decoded bytes with a mismatch edge that is an error; every decompress arm bounds its output by the allocation limit; the compression level written to the header is the one used to compress and the one the reader rebuilds; results replace the caller's buffer",
                  "static analysis: variant-partitioned call inventory vs a pairing table + def-use/edge rules over MIR")
+CLAIMS["C16"] = ("for every scalar serde data-model method and schema shape (146 cells today): the stream tokens SchemaAwareSerializer writes and SchemaAwareDeserializer reads are those the generic decoder reads for that shape, and both sides accept the same shapes; under unions the branch index comes first; imported byte-count (C13) and block-framing (C02) obligations of the serde writers/readers; RecordSerializer writes in schema order (compare position, cache early fields, flush all consecutive cached fields in a loop, fill defaults in a loop)",
+                 "static analysis: variant-partitioned path summaries keyed on the self.schema field over MIR, three-way table comparison + loop/def-use shape rules")
 NA_DEFAULT = "check under construction in this round (see DESIGN.md); not yet claimed"
 
 
